@@ -18,7 +18,7 @@
                closes the connection).  Window auto-tuning's float decision, the RTT, the clock
                and the allowWindowIncrease callback are arbitrary arguments of the ops. *)
 From Coq Require Import List ZArith.
-From V Require Import Gen.Params FlowCtl.Model FlowCtl.ProofsBase FlowCtl.ProofsInv FlowCtl.Proofs.
+From V Require Import Gen.Params FlowCtl.Model FlowCtl.ProofsBase FlowCtl.ProofsInv FlowCtl.Proofs FlowCtl.ProofsWeak.
 Import ListNotations.
 Open Scope Z_scope.
 
@@ -113,6 +113,37 @@ Print Assumptions C04_window_monotone_conn.
 Theorem C04_window_size_never_shrinks : forall s o, rws_le s (fst (step s o)).
 Proof. exact window_size_never_shrinks. Qed.
 Print Assumptions C04_window_size_never_shrinks.
+
+(** (b) and the monotone part of (d) do not depend on the callers at all: [reach0] allows ANY
+    sequence of calls (any arguments, invalid stream handles, sends beyond the window, reads
+    beyond what was received, calls after errors), only initial receive windows must be
+    positive and initial send limits non-negative. *)
+Theorem C04_blocked_once_all : forall cw cmax s g, 0 < cw -> reach0 cw cmax s g ->
+  Forall (fun x => NoDup (g_blocked x)) (gs g) /\ NoDup (gc_blocked g).
+Proof. exact blocked_once_all. Qed.
+Print Assumptions C04_blocked_once_all.
+
+Theorem C04_window_increases_all : forall cw cmax s g i x now rtt fast al, 0 < cw -> reach0 cw cmax s g ->
+  0 <= i -> nth_error (gs g) (Z.to_nat i) = Some x ->
+  let v := fst (snd (step s (SWinUpd i now rtt fast al))) in
+  v <> 0 ->
+  g_adv x < v /\
+  exists st', nth_error (streams (fst (step s (SWinUpd i now rtt fast al)))) (Z.to_nat i) = Some st' /\
+              receiveWindow (sb st') = v.
+Proof. exact window_increases_all_stream. Qed.
+Print Assumptions C04_window_increases_all.
+
+Theorem C04_window_increases_all_conn : forall cw cmax s g now rtt fast al, 0 < cw -> reach0 cw cmax s g ->
+  let v := fst (snd (step s (CWinUpd now rtt fast al))) in
+  v <> 0 ->
+  gc_adv g < v /\ receiveWindow (conn (fst (step s (CWinUpd now rtt fast al)))) = v.
+Proof. exact window_increases_all_conn. Qed.
+Print Assumptions C04_window_increases_all_conn.
+
+(** every disciplined history is a history (so C04_nonvacuous also witnesses [reach0]) *)
+Theorem C04_reach_reach0 : forall cw cmax s g, reach cw cmax s g -> reach0 cw cmax s g.
+Proof. exact reach_reach0. Qed.
+Print Assumptions C04_reach_reach0.
 
 (** (e) The connection's consumed counter is the sum over the streams of consumed-or-abandoned
     bytes, its received counter the sum of the streams' highest offsets; no stream is credited
